@@ -95,12 +95,14 @@ def main():
         os.makedirs(d, exist_ok=True)
         demo_dir = os.path.join(wt, "demo")
         # copy deliverables
-        shutil.copy(os.path.join(wt, patch), os.path.join(d, "patch.diff"))
-        for f in os.listdir(demo_dir):
-            if f.endswith((".c", ".sh", ".md")):
-                shutil.copy(os.path.join(demo_dir, f), os.path.join(d, f))
-        r = sh("cd %s && git checkout -q -- . ; /verif/kit/confirm_seed.sh %s %s '%s' %s" % (wt, wt, patch, run, d))
-        print(r.stdout.strip(), flush=True)
+        if os.path.isdir(demo_dir):
+            shutil.copy(os.path.join(wt, patch), os.path.join(d, "patch.diff"))
+            for f in os.listdir(demo_dir):
+                if f.endswith((".c", ".sh", ".md", ".h")):
+                    shutil.copy(os.path.join(demo_dir, f), os.path.join(d, f))
+        if not os.path.exists(os.path.join(d, "confirm.json")):      # confirmation is done once per seed
+            r = sh("cd %s && git checkout -q -- . ; /verif/kit/confirm_seed.sh %s %s '%s' %s" % (wt, wt, patch, run, d))
+            print(r.stdout.strip(), flush=True)
         conf = json.load(open(os.path.join(d, "confirm.json"))) if os.path.exists(os.path.join(d, "confirm.json")) else {}
         res = {}
         r = sh("/verif/kit/trypatch.py %s %s %s" % (n.replace("-", "_")[:24], os.path.join(d, "patch.diff"), " ".join(checks)))
